@@ -66,7 +66,32 @@ func (h *horizonReader) Read(p []byte) (int, error) {
 	return n, nil
 }
 
-func newHR(b []byte) *horizonReader { return &horizonReader{data: b, max: 20*len(b) + 200} }
+// Reader kinds: the decoders take an io.Reader, whose dynamic type may be a pointer, a function type or a
+// struct held by value (the last two are not comparable with ==). hrKind selects the kind newHR builds;
+// every reader-form case runs with each kind, the non-pointer kinds twice in a row.
+var hrKind int
+
+type funcReader func(p []byte) (int, error)
+
+func (f funcReader) Read(p []byte) (int, error) { return f(p) }
+
+type valReader struct {
+	h    *horizonReader
+	tags []string // makes the struct type uncomparable
+}
+
+func (v valReader) Read(p []byte) (int, error) { return v.h.Read(p) }
+
+func newHR(b []byte) io.Reader {
+	h := &horizonReader{data: b, max: 20*len(b) + 200}
+	switch hrKind {
+	case 1:
+		return funcReader(h.Read)
+	case 2:
+		return valReader{h: h}
+	}
+	return h
+}
 
 // stallReader delivers the first n bytes one at a time and then answers (0, nil) for ever: a legal
 // but useless io.Reader. The decoders must give up with an error, not spin or panic.
@@ -182,6 +207,18 @@ func xmlSeqFirstDoc(b []byte) string {
 }
 
 func c15Bytes(c *Ctx, in []byte, api string) {
+	if strings.Contains(api, "Reader") && !strings.Contains(api, "ByteReader") {
+		for _, k := range []int{0, 1, 1, 2, 2} {
+			hrKind = k
+			c15BytesOne(c, in, api)
+		}
+		hrKind = 0
+		return
+	}
+	c15BytesOne(c, in, api)
+}
+
+func c15BytesOne(c *Ctx, in []byte, api string) {
 	cas := func() interface{} { return c15Case{Kind: "bytes", Input: in, Text: string(in), API: api} }
 	c.S.Transitions++
 	c.S.Validated++
@@ -397,6 +434,8 @@ func c15Seeds() (xmls, jsons [][]byte, gob []byte) {
 	}
 	for _, s := range []string{
 		`{"a":1}`, `{"a":{"b":[1,{"c":"]"}]},"d":"x\\"}`, `[1,{"a":null}]`, `{"a":"}{\""}`, ` {"a":true} {"b":2}`, `{"é":"é"}`,
+		// syntactically valid documents the JSON decoder rejects after it has started to fill the result
+		`{"a":1,"b":1e999,"c":2}`, `{"a":[1,{"b":-1e999}],"c":"x"}`,
 	} {
 		jsons = append(jsons, []byte(s))
 	}
@@ -434,7 +473,7 @@ func mutate1(seed []byte, f func(b []byte)) {
 
 func c15Run(c *Ctx) {
 	mustBeDefault(c)
-	c.S.Rule = "part (a): seed documents (10 XML incl. prolog/comments/PIs/CDATA/namespaces/BOM/two roots/DOCTYPE, 6 JSON incl. braces and quotes in strings and a trailing escaped backslash, 1 gob) x every truncation, single-byte deletion, substitution and insertion from {< > / & \" = { } [ ] \\ a space 0xFF} at every offset (deviation bound 1; pairs of deviations on the short seeds in thorough) x every decoder form (byte, reader, ByteReader, raw, bulk handlers, formatted, BeautifyXml, gob, x2j-wrapper Unmarshal/DocToMap), plus readers that stall with (0,nil) for ever after every prefix length; oracle: no panic, termination (reader horizon), fails iff the standard tokenizer rejects the first document (Token for the Map decoders, RawToken + name matching for the sequence decoders, encoding/json for JSON), no partial Map with an error, documented no-root result, and the decoded Map encodes without panic. part (b): Maps with <= 4 nodes over keys {a, k, \"\"} x malformed and well-formed path / key / sub-key / new-value / key-pair strings x every query and update method and the x2j-wrapper walkers; oracle: no panic. non-trivial = distinct (api, outcome) pairs are counted in distinct_outcomes; every case counts."
+	c.S.Rule = "part (a): seed documents (10 XML incl. prolog/comments/PIs/CDATA/namespaces/BOM/two roots/DOCTYPE, 8 JSON incl. braces and quotes in strings, a trailing escaped backslash and numbers outside the float64 range, 1 gob) x every truncation, single-byte deletion, substitution and insertion from {< > / & \" = { } [ ] \\ a space 0xFF} at every offset (deviation bound 1; pairs of deviations on the short seeds in thorough) x every decoder form (byte, reader - as pointer, function-typed and by-value struct readers, each non-pointer kind twice in a row -, ByteReader, raw, bulk handlers, formatted, BeautifyXml, gob, x2j-wrapper Unmarshal/DocToMap), plus readers that stall with (0,nil) for ever after every prefix length; oracle: no panic, termination (reader horizon), fails iff the standard tokenizer rejects the first document (Token for the Map decoders, RawToken + name matching for the sequence decoders, encoding/json for JSON), no partial Map with an error, documented no-root result, and the decoded Map encodes without panic. part (b): Maps with <= 4 nodes over keys {a, k, \"\"} x malformed and well-formed path / key / sub-key / new-value / key-pair strings x every query and update method and the x2j-wrapper walkers; oracle: no panic. non-trivial = distinct (api, outcome) pairs are counted in distinct_outcomes; every case counts."
 	c.S.Assumptions = []string{"reference acceptance = encoding/xml Token()/RawToken()+nesting, encoding/json Decoder", "JSON array followed by trailing bytes: accept and reject both accepted (see C06)"}
 	xmls, jsons, gob := c15Seeds()
 	xmlAPIs := []string{"NewMapXml", "NewMapXml(cast)", "NewMapXmlReader", "NewMapXmlReader(ByteReader)", "NewMapXmlReaderRaw", "NewMapXmlSeq", "NewMapXmlSeq(cast)",
